@@ -5,6 +5,7 @@ Property theorems only.
 import H263V.Model.Yuv
 import H263V.Spec.Bt601
 import H263V.Lemmas.Yuv
+import H263V.Lemmas.YuvImg
 namespace H263V.Thm.C08
 open H263V H263V.Yuv
 
@@ -12,5 +13,17 @@ open H263V H263V.Yuv
 assertion, finding D9) yields an empty output and never panics. -/
 theorem empty_ok (w : Nat) : yuv420ToRgba #[] #[] #[] w = .ok #[] := by
   simp [yuv420ToRgba]
+
+/-- every sample of a plane is a byte -/
+def Bytes (a : Array Nat) : Prop := ∀ i (h : i < a.size), a[i] < 256
+
+/-- For every width and height of at least one (odd sizes and widths not divisible by four included) with planes of the
+documented sizes, the conversion never panics (no assertion fails, no slice is out of range) and the output holds exactly
+width x height RGBA pixels. -/
+theorem no_panic_and_length (y cb cr : Array Nat) (w h : Nat) (hw : 1 ≤ w) (hh : 1 ≤ h) (hys : y.size = w * h)
+    (hbs : cb.size = ((w + 1) / 2) * ((h + 1) / 2)) (hrs : cr.size = ((w + 1) / 2) * ((h + 1) / 2))
+    (hy : Bytes y) (hb : Bytes cb) (hr : Bytes cr) :
+    ∃ out, yuv420ToRgba y cb cr w = .ok out ∧ out.size = 4 * (w * h) :=
+  Lemmas.YuvImg.yuv_ok y cb cr w h hw hh hys hbs hrs hy hb hr
 
 end H263V.Thm.C08
